@@ -249,7 +249,9 @@ fn text_part(n: usize, iter_n: usize) -> (Report, u64, u64) {
         for_each_string(alpha, n, shard, NS, &mut |t, len| {
             check_line_index(t, &mut rep);
             *rep.by_bound.entry(format!("line-index len={}", len)).or_insert(0) += 1;
-            if len <= iter_n && !t.contains('😀') && !t.contains('\u{feff}') {
+            let wide = t.contains('😀') || t.contains('\u{feff}');
+            let breaks = t.bytes().filter(|b| *b == b'\n' || *b == b'\r').count();
+            if len <= iter_n && (!wide || breaks <= 2) {
                 check_newline_iter(t, &mut rep, &mut states, &mut transitions);
                 *rep.by_bound.entry(format!("newline-iter len={}", len)).or_insert(0) += 1;
             }
